@@ -158,6 +158,8 @@ impl PayloadWaiter {
                     match result {
                         Ok(Some(block)) => {
                             let _ = pending.remove(&block.digest());
+                            #[cfg(hotstuff_verif)]
+                            crate::verif::emit(format!("\"ev\":\"PayloadResume\",\"blk\":\"{}\"", crate::verif::hex(&block.digest().0)));
                             self.tx_loopback.send(*block).await.expect("Failed to send consensus message");
                         },
                         Ok(None) => (),
